@@ -75,7 +75,9 @@ def run(ctx):
     if swa is None:
         ctx.note('Stream::write_all does not exist in this tree; complete delivery must then be established in Link::write (R14.1b/c)')
     for path in (enum_paths(swa) if swa is not None else []):
-        st = run_path(swa, path)
+        st = run_path(swa, path, P)
+        if not st.feasible:
+            continue
         if ret_kind(st.env.get(0)) != 'ok':
             continue
         n_ok += 1
@@ -94,8 +96,11 @@ def run(ctx):
     lw = ctx.body(LINK_WRITE)
     n_ok = 0
     for path in enum_paths(lw):
-        st = run_path(lw, path)
-        if ret_kind(st.env.get(0)) != 'ok':
+        st = run_path(lw, path, P)
+        if not st.feasible:
+            continue
+        if ret_kind(st.env.get(0)) not in ('ok', 'call:' + STREAM_WRITE_ALL):
+            # (the result of the delivery returned as is counts as a success path: it is Ok exactly when everything was delivered)
             continue
         n_ok += 1
         ser = path_calls(st, 'model::data::Message::write')
@@ -178,7 +183,9 @@ def run(ctx):
               'tpkt_header has callers other than tpkt::Client::write: %s' % callers)
     n_ok = 0
     for path in enum_paths(tw):
-        st = run_path(tw, path)
+        st = run_path(tw, path, P)
+        if not st.feasible:
+            continue
         rk = ret_kind(st.env.get(0))
         lws = path_calls(st, LINK_WRITE)
         if rk == 'err':
@@ -249,7 +256,9 @@ def run(ctx):
     xw = ctx.body(X224_WRITE)
     n = 0
     for path in enum_paths(xw):
-        st = run_path(xw, path)
+        st = run_path(xw, path, P)
+        if not st.feasible:
+            continue
         tws = path_calls(st, TPKT_WRITE)
         if not tws:
             continue
@@ -310,7 +319,10 @@ def object_value(st, e):
         elif e[0] in ('ref', 'deref', 'refm'):
             e = e[1]
         else:
-            return e
+            p = peel_payload(e)     # `helper(..)?` of an inlined helper: the payload of the Ok(..) it built on this path
+            if p is e:
+                return e
+            e = p
     return e
 
 
